@@ -636,3 +636,140 @@ def _randn(it, ctx, a, k):
     else:
         sizes = E._shape_args(it, ctx, a)
     return E.sym_tensor(f"rand{_rand_counter[0]}", sizes)
+
+
+# ============================================================================ linear-algebra functionals ==
+# solves / log-determinants / decompositions are *uninterpreted functionals of the dense matrix* (DESIGN section 4:
+# CG, Lanczos and Cholesky all satisfy the exact contracts).  A matrix argument is passed to the functional as the z3
+# lambda  (i, j) -> entry, a vector as  i -> entry, so two calls on extensionally identical operands are the same term.
+_MAT = z3.ArraySort(z3.IntSort(), z3.ArraySort(z3.IntSort(), z3.RealSort()))
+_VEC = z3.ArraySort(z3.IntSort(), z3.RealSort())
+INVQUAD = z3.Function("INVQUAD", _MAT, _VEC, z3.IntSort(), z3.RealSort())   # v^T A^{-1} v   (A: n x n)
+LOGDET = z3.Function("LOGDET", _MAT, z3.IntSort(), z3.RealSort())           # log det A
+CHOL = z3.Function("CHOL", _MAT, z3.IntSort(), z3.IntSort(), z3.IntSort(), z3.RealSort())  # lower Cholesky factor entry (i, j)
+
+
+def mat_lambda(t, lead_idx):
+    """the trailing two dims of tensor t at leading index lead_idx, as a z3 (Int -> Int -> Real) lambda"""
+    i, j = z3.Int("mi!"), z3.Int("mj!")
+    body = E.to_real(t.at_dims(list(lead_idx) + [i, j]))
+    return z3.Lambda([i], z3.Lambda([j], body))
+
+
+def vec_lambda(t, lead_idx, col=None):
+    i = z3.Int("vi!")
+    body = E.to_real(t.at_dims(list(lead_idx) + [i] + ([col] if col is not None else [])))
+    return z3.Lambda([i], body)
+
+
+def _lead_maps(ctx, A, R, a_lead, r_lead):
+    """broadcast the leading (batch) dims of a matrix-like A and a rhs R"""
+    da = VTensor(A.dims[:a_lead], lambda idx: z3.IntVal(0), "int")
+    dr = VTensor(R.dims[:r_lead], lambda idx: z3.IntVal(0), "int")
+    if A.dims[:a_lead] or R.dims[:r_lead]:
+        dims, maps = E.broadcast_dims(ctx, [da, dr])
+    else:
+        dims, maps = [], [[], []]
+    return dims, maps
+
+
+def _pick(dims, t_dims, mp, idx):
+    per_dim, p = [], 0
+    for d in dims:
+        per_dim.append(idx[p: p + len(d.atoms)])
+        p += len(d.atoms)
+    off = len(dims) - len(t_dims)
+    out = []
+    for di, d in enumerate(t_dims):
+        how = mp[off + di]
+        if how == "same":
+            out.append(per_dim[off + di] if len(d.atoms) > 1 else per_dim[off + di][0])
+        elif how == "reflat":
+            out.append(E.flat_index(dims[off + di].atoms, per_dim[off + di]))
+        else:
+            out.append(z3.IntVal(0))
+    return out
+
+
+def m_inv_quad_logdet(t, it, ctx, a, k):
+    rhs = k.get("inv_quad_rhs", a[0] if a else NONE)
+    want_ld = k.get("logdet", a[1] if len(a) > 1 else FALSE)
+    want_ld = isinstance(want_ld, VBool) and want_ld.concrete() is True
+    A = t.frozen()
+    n = A.dims[-1].size
+    iq = NONE
+    if rhs is not NONE:
+        R = rhs.frozen()
+        if not E.same_extent(ctx, R.dims[-2].size, n):
+            if not ctx.branch(R.dims[-2].size == n):
+                raise PyRaise(VExc("RuntimeError", "inv_quad_rhs has the wrong number of rows"))
+        dims, maps = _lead_maps(ctx, A, R, len(A.dims) - 2, len(R.dims) - 2)
+        kcols = R.dims[-1].size
+
+        def elem(idx):
+            ai = _pick(dims, A.dims[:-2], maps[0], idx)
+            ri = _pick(dims, R.dims[:-2], maps[1], idx)
+            M = mat_lambda(A, ai)
+            return E.mk_sum(lambda c: INVQUAD(M, vec_lambda(R, ri, c), n), kcols)
+
+        iq = VTensor(dims, elem, "real")
+    ld = NONE
+    if want_ld:
+        lead = A.dims[:-2]
+        ld = VTensor(lead, lambda idx: LOGDET(mat_lambda(A, _regroup_idx(lead, idx)), n), "real")
+    return VTuple([iq, ld])
+
+
+def _regroup_idx(dims, flat_atoms):
+    out, p = [], 0
+    for d in dims:
+        k = len(d.atoms)
+        out.append(flat_atoms[p: p + k] if k > 1 else flat_atoms[p])
+        p += k
+    return out
+
+
+def m_logdet(t, it, ctx, a, k):
+    A = t.frozen()
+    lead = A.dims[:-2]
+    n = A.dims[-1].size
+    return VTensor(lead, lambda idx: LOGDET(mat_lambda(A, _regroup_idx(lead, idx)), n), "real")
+
+
+def m_cholesky(t, it, ctx, a, k):
+    """lower Cholesky factor L (L L^T = A): entries are CHOL(A, n, i, j), zero above the diagonal"""
+    A = t.frozen()
+    lead = A.dims[:-2]
+    n = A.dims[-1].size
+    nl = sum(len(d.atoms) for d in lead)
+    upper = k.get("upper", FALSE)
+    upper = isinstance(upper, VBool) and upper.concrete() is True
+
+    def elem(idx):
+        i, j = idx[nl], idx[nl + 1]
+        if upper:
+            i, j = j, i
+        return z3.If(j <= i, CHOL(mat_lambda(A, _regroup_idx(lead, idx[:nl])), n, i, j), z3.RealVal(0))
+
+    r = VTensor(list(A.dims), elem, "real", True, linop_class="TriangularLinearOperator")
+    r.meta["chol_of"] = A
+    return r
+
+
+def m_root_decomposition(t, it, ctx, a, k):
+    """RootLinearOperator R R^T = A with an exact root (the Cholesky factor is one)"""
+    A = t.frozen()
+    L = m_cholesky(A, it, ctx, [], {})
+    r = A.copy(is_linop=True, linop_class="RootLinearOperator")
+    r.meta["root"] = L
+    return r
+
+
+def _root_attr(t, it, ctx, a, k):
+    return t.meta["root"]
+
+
+E.METHODS.update({"inv_quad_logdet": m_inv_quad_logdet, "logdet": m_logdet, "cholesky": m_cholesky,
+                  "root_decomposition": m_root_decomposition})
+T["tensor_method.root"] = None
+del T["tensor_method.root"]
